@@ -26,6 +26,8 @@ struct GenStruct {
     /// `#pragma pack(N)` together with `aligned(M)`: bindgen's pack detection (a member's type
     /// alignment exceeds the struct's) cannot see the pragma (known struct-layout finding of C02)
     pragma_and_aligned: bool,
+    /// `__attribute__((packed))` or `#pragma pack`: bindgen emits no padding fields inside such a record (C02 `packed_member_gap`)
+    packedish: bool,
     /// name of the type in the header / IR dump (`S5T` for the class template behind the alias `S5`)
     dump_name: String,
     is_template: bool,
@@ -36,7 +38,10 @@ const BASES: &[(&str, bool, bool, u32)] = &[
     ("short", true, false, 16), ("unsigned int", false, false, 32), ("int", true, false, 32),
     ("unsigned long long", false, false, 64), ("long long", true, false, 64), ("_Bool", false, true, 8),
     ("enum E", false, false, 32), ("unsigned long", false, false, 64),
+    // typedefs with their own (smaller) alignment: clang uses the typedef's alignment for the bit-field's storage unit
+    ("c03_u32a1", false, false, 32), ("c03_u32a2", false, false, 32), ("c03_i32a2", true, false, 32), ("c03_u64a4", false, false, 64), ("c03_u16a1", false, false, 16),
 ];
+const PRELUDE: &str = "enum E { E0, E1 = 5, E2 = 1000 };\ntypedef unsigned int c03_u32a1 __attribute__((aligned(1)));\ntypedef unsigned int c03_u32a2 __attribute__((aligned(2)));\ntypedef int c03_i32a2 __attribute__((aligned(2)));\ntypedef unsigned long long c03_u64a4 __attribute__((aligned(4)));\ntypedef unsigned short c03_u16a1 __attribute__((aligned(1)));\n";
 
 fn gen_struct(rng: &mut Rng, k: usize) -> GenStruct {
     let name = format!("S{k}");
@@ -53,7 +58,12 @@ fn gen_struct(rng: &mut Rng, k: usize) -> GenStruct {
         let c = rng.below(100);
         if c < 12 && !is_union {
             let (mt, mb) = *rng.pick(&[("char", 8u32), ("short", 16), ("int", 32), ("long long", 64), ("void*", 64), ("unsigned char", 8)]);
-            body.push_str(&format!("  {mt} m{fi};\n"));
+            // a member-level alignment attribute between bit-field groups: the padding in front of the member is
+            // what keeps the later groups where C has them
+            // (not inside packed / pragma-packed records: packed + aligned members is C02's family of findings —
+            // packed_align_conflict, packedN_misplaces, packed_member_gap — and would drown this property's signal)
+            let al = if !packed && pragma.is_none() && rng.chance(1, 3) { format!(" __attribute__((aligned({})))", rng.pick(&[2u32, 4, 8, 16])) } else { String::new() };
+            body.push_str(&format!("  {mt} m{fi}{al};\n"));
             cursor = (cursor + mb - 1) / mb * mb + mb;
             fi += 1;
             continue;
@@ -90,7 +100,7 @@ fn gen_struct(rng: &mut Rng, k: usize) -> GenStruct {
     text.push_str(&format!("{kw}{attr} {name} {{\n{body}}}{al};\n"));
     if pragma.is_some() { text.push_str("#pragma pack(pop)\n"); }
     let dump_name = name.clone();
-    GenStruct { name, text, fields, is_union, pragma_and_aligned: pragma.is_some() && aligned.is_some(), dump_name, is_template: false }
+    GenStruct { name, text, fields, is_union, pragma_and_aligned: pragma.is_some() && aligned.is_some(), packedish: packed || pragma.is_some(), dump_name, is_template: false }
 }
 
 /// A C++ class template with bit-fields: libclang reports no offsets for the pattern, so
@@ -113,7 +123,7 @@ fn gen_template_struct(rng: &mut Rng, k: usize) -> GenStruct {
     }
     body.push_str("  T* owner;\n");
     let text = format!("template<class T> struct {dump_name} {{\n{body}}};\nstruct Use{k} {{ {dump_name}<int> r; }};\n");
-    GenStruct { name, text, fields, is_union: false, pragma_and_aligned: false, dump_name, is_template: true }
+    GenStruct { name, text, fields, is_union: false, pragma_and_aligned: false, packedish: false, dump_name, is_template: true }
 }
 
 fn test_values(rng: &mut Rng, w: u32) -> Vec<u64> {
@@ -148,7 +158,7 @@ fn main() {
     for b in 0..n_batches {
         let cpp = b % 4 == 3;
         let gs: Vec<GenStruct> = (0..per_batch).map(|k| if cpp { gen_template_struct(&mut rng, b * per_batch + k) } else { gen_struct(&mut rng, b * per_batch + k) }).collect();
-        let mut header = String::from("enum E { E0, E1 = 5, E2 = 1000 };\n");
+        let mut header = String::from(PRELUDE);
         for g in &gs { header.push_str(&g.text); }
         let out = if cpp {
             generate_text(&scratch, &format!("b{b}.hpp"), &header, &["--no-layout-tests"], &["-x", "c++", "-std=c++14"], true)
@@ -263,6 +273,10 @@ fn main() {
         //  * union_unit_short: a union whose unit is shorter than some member needs
         let mut padded_before_unit: std::collections::BTreeSet<String> = Default::default();
         let mut union_unit_short: std::collections::BTreeSet<String> = Default::default();
+        //  * gap_before_member: clang leaves padding in front of a plain member (member-level `aligned(N)`); inside a
+        //    packed / pragma-packed record the unchanged code never emits a padding field, so that member and every
+        //    later unit slide (C02's `packed_member_gap`); outside packed records the padding field IS emitted
+        let mut gap_before_member: std::collections::BTreeSet<String> = Default::default();
         if let Some(d) = log.dumps.first() {
             let mut union_comp: BTreeMap<u64, bool> = BTreeMap::new();
             for r in d { if r.tag == "type" && r.get("k") == "Comp" { union_comp.insert(r.num("id").unwrap_or(0), r.get("ck") == "union"); } }
@@ -275,6 +289,7 @@ fn main() {
                 let pe = prev_end.get(&comp).cloned().unwrap_or(Some(0));
                 if r.words.iter().any(|w| w == "data") {
                     let off = r.num("off");
+                    if let (Some(o), Some(pe)) = (off, pe) { if !is_union && o / 8 > pe { gap_before_member.insert(cn.clone()); } }
                     let size: Option<u64> = r.get("layout").split(',').next().and_then(|x| x.parse().ok());
                     prev_end.insert(comp, match (off, size) { (Some(o), Some(sz)) => Some(o / 8 + sz), _ => None });
                 } else {
@@ -432,6 +447,7 @@ fn main() {
             let any_overridden = overridden.iter().any(|(s_, _)| s_ == sn);
             if overridden.contains(&(sn.to_owned(), nth_of)) || (any_overridden && kind == "ctor") { *known.entry("bf_offset_overridden".into()).or_default() += 1; continue; }
             if g.pragma_and_aligned { *known.entry("pragma_pack_undetected".into()).or_default() += 1; continue; }
+            if g.packedish && gap_before_member.contains(sn) { *known.entry("unit_after_unpadded_packed_member".into()).or_default() += 1; continue; }
             if padded_before_unit.contains(sn) || union_unit_short.contains(sn) || any_overridden { *known.entry("bitfield_unit_misplaced".into()).or_default() += 1; continue; }
             if kind == "ctor" {
                 // a constructor is the composition of the setters: known iff some field of the unit is in region R1
